@@ -118,7 +118,10 @@ func c17One(c *fw.Ctx, im maskImpl, cs c17Case, backing, want, orig []byte, rnd 
 }
 
 func c17Run(c *fw.Ctx, shard, nshards int) {
-	const maxLen = 4200
+	maxLen := 4200
+	if c.Thorough() {
+		maxLen = 16500 // dense beyond four write buffers
+	}
 	backing := make([]byte, maxLen+512)
 	want := make([]byte, maxLen)
 	orig := make([]byte, maxLen+2*c17Guard)
